@@ -12,6 +12,7 @@ import Rooc.DisplayItems
 import Rooc.Proofs.Field
 import Rooc.Proofs.DisplayPratt
 import Rooc.Proofs.DisplayTerm
+import Rooc.Proofs.DisplayText
 import Mathlib.Tactic.Linarith
 import Mathlib.Data.Rat.Floor
 namespace Rooc.Props.C12
@@ -50,7 +51,35 @@ theorem exp_display_parens_sufficient_partial {α : Type} (e : Exp α) (h : noDe
   · simpa [ReadsAs] using this
   · cases e with
     | bin o l r => right; exact ⟨by have := lbp_pos o; simp [topFits]; omega, trivial⟩
-    | _ => left; rfl
+    | _ => left; exact ⟨_, rfl, rfl⟩
+
+/-- The text `impl Display for Exp` produces IS the item stream the theorems talk about: items
+separated by single blanks, a group as `( … )` around the rendering of its content. -/
+theorem display_text_is_item_stream {α : Type} (tok : α → String) (e : Exp α) :
+    displayExp tok e = renderItems tok (items none e) :=
+  showE_eq_renderItems tok none e
+
+/-- A right operand is rendered without the parentheses it needs exactly when it sits at its
+parent's own precedence and the parent is left-associative (every operator but `implies`) … -/
+theorem right_defect_iff {α : Type} (o o' : BinOp) (a b : Exp α) :
+    (needRight o (.bin o' a b) = true ∧ placed o (.bin o' a b) = false) ↔
+      (Gen.binPrec o' = Gen.binPrec o ∧ Gen.binLeftAssoc o = true) := by
+  cases o <;> cases o' <;> simp [needRight, placed, lbp, rbp, Gen.binPrec, Gen.binLeftAssoc]
+
+/-- … and a left operand exactly when it is an `implies` under `implies` or `iff`. -/
+theorem left_defect_iff {α : Type} (o o' : BinOp) (a b : Exp α) :
+    (needLeft o (.bin o' a b) = true ∧ placed o (.bin o' a b) = false) ↔
+      (o' = .implies ∧ (o = .implies ∨ o = .iff)) := by
+  cases o <;> cases o' <;> simp [needLeft, placed, lbp, rbp, Gen.binPrec, Gen.binLeftAssoc]
+
+/-- The repaired rule of fixes/C12-display-parens.diff (parenthesise an operand exactly where the
+grouping rules need it, by side) reads back as the printed tree for EVERY expression. -/
+theorem exp_display_fixed_roundtrip {α : Type} (e : Exp α) : ReadsAs (itemsFixed none e) e := by
+  have := coreFixed (skel e) e (Nat.le_refl _) none 0 [] e [] ?_ .stopNil
+  · simpa [ReadsAs] using this
+  · cases e with
+    | bin o l r => right; exact ⟨by have := lbp_pos o; simp [topFits]; omega, trivial⟩
+    | _ => left; exact ⟨_, rfl, rfl⟩
 
 /-- non-vacuity: `x * (y + 1) - z / 2 + w` has no defective shape. -/
 example : noDefect (.bin .add (.bin .sub (.bin .mul (.var "x") (.bin .add (.var "y") (.num 1)))
@@ -60,24 +89,24 @@ example : noDefect (.bin .add (.bin .sub (.bin .mul (.var "x") (.bin .add (.var 
 theorem exp_display_div_counterexample :
     let e : Exp Int := .bin .div (.var "x") (.bin .mul (.num 2) (.num 3))
     noDefect e = false ∧
-    items none e = [.leaf (.var "x"), .infix .div, .leaf (.num 2), .infix .mul, .leaf (.num 3)] ∧
+    items none e = [.atom (.var "x"), .infix .div, .atom (.num 2), .infix .mul, .atom (.num 3)] ∧
     ReadsAs (items none e) (.bin .mul (.bin .div (.var "x") (.num 2)) (.num 3)) := by
   refine ⟨by decide, by simp [items, Gen.binPrec], ?_⟩
   simp only [items, Gen.binPrec, ReadsAs, List.cons_append, List.nil_append, Nat.lt_irrefl, if_false]
-  refine .mk (.step (by decide) (.mk (.stopOp (by decide))) ?_)
-  exact .step (by decide) (.mk .stopNil) .stopNil
+  refine .mk rfl (.step (by decide) (.mk rfl (.stopOp (by decide))) ?_)
+  exact .step (by decide) (.mk rfl .stopNil) .stopNil
 
 /-- `x - (3 - 1)` is rendered `x - 3 - 1` (the `Sub` special case looks at the leafness of the inner
 right operand `1`, not of the operand `3 - 1`): the stream reads back as `(x - 3) - 1`. -/
 theorem exp_display_sub_counterexample :
     let e : Exp Int := .bin .sub (.var "x") (.bin .sub (.num 3) (.num 1))
     noDefect e = false ∧
-    items none e = [.leaf (.var "x"), .infix .sub, .leaf (.num 3), .infix .sub, .leaf (.num 1)] ∧
+    items none e = [.atom (.var "x"), .infix .sub, .atom (.num 3), .infix .sub, .atom (.num 1)] ∧
     ReadsAs (items none e) (.bin .sub (.bin .sub (.var "x") (.num 3)) (.num 1)) := by
   refine ⟨by decide, by simp [items, isLeaf, Gen.binPrec], ?_⟩
   simp only [items, isLeaf, Gen.binPrec, ReadsAs, List.cons_append, List.nil_append, Nat.lt_irrefl, if_false, if_true]
-  refine .mk (.step (by decide) (.mk (.stopOp (by decide))) ?_)
-  exact .step (by decide) (.mk .stopNil) .stopNil
+  refine .mk rfl (.step (by decide) (.mk rfl (.stopOp (by decide))) ?_)
+  exact .step (by decide) (.mk rfl .stopNil) .stopNil
 
 /-- `x - (y + 1)` is rendered `x - y + 1`: the stream reads back as `(x - y) + 1`. -/
 theorem exp_display_sub_add_counterexample :
@@ -86,8 +115,8 @@ theorem exp_display_sub_add_counterexample :
     ReadsAs (items none e) (.bin .add (.bin .sub (.var "x") (.var "y")) (.num 1)) := by
   refine ⟨by decide, by simp [subDivDefect, needRight, placed, lbp, rbp, Gen.binPrec, Gen.binLeftAssoc], ?_⟩
   simp only [items, isLeaf, Gen.binPrec, ReadsAs, List.cons_append, List.nil_append, Nat.lt_irrefl, if_false, if_true]
-  refine .mk (.step (by decide) (.mk (.stopOp (by decide))) ?_)
-  exact .step (by decide) (.mk .stopNil) .stopNil
+  refine .mk rfl (.step (by decide) (.mk rfl (.stopOp (by decide))) ?_)
+  exact .step (by decide) (.mk rfl .stopNil) .stopNil
 
 /-! ### the sign of a rendered term -/
 
